@@ -68,7 +68,7 @@ def main():
 
     proof = None
     if st.translator_ok:
-        proof = common.proof_status(prop)
+        proof = common.proof_status(prop, chk=(tier == "thorough"))
 
     mod.run(ctx)
 
@@ -78,6 +78,8 @@ def main():
     if proof is not None and (proof["rc"] != 0 or proof["discharged"] < proof["obligations"]):
         bad = proof.get("failing") or [n for (n, ok, _) in proof["theorems"] if not ok]
         broken.append((f"proof obligation {bad} of coq/props/{prop}.v", proof["log"][-1500:]))
+    if proof is not None and proof.get("coqchk") and not proof["coqchk"]["ok"]:
+        broken.append((f"coqchk -o on coq/props/{prop}.vo (independent re-check / axiom list)", proof["coqchk"]["tail"]))
     if st.translator_ok and not st.extract_ok:
         broken.append(("model does not build (extraction)", (st.make_log[-1500:] + st.extract_log[-1500:])))
     if ctx.disagreements:
